@@ -9,7 +9,7 @@
    to be one: that is what "_partial" stands for.  The model is tied to the implementation by
    byte-identical text and equal truth tables on every run. *)
 From Coq Require Import List Bool NArith String.
-From PC Require Import Base.Result Model.Generic Model.Marker Model.MarkerAlg Proofs.GenericProofs Proofs.MarkerProofs Proofs.MarkerAlgProofs.
+From PC Require Import Base.Result Model.Generic Model.Marker Model.MarkerAlg Proofs.GenericProofs Proofs.MarkerProofs Proofs.MarkerAlgProofs Proofs.LeafRebuild Proofs.StringClass.
 Import ListNotations.
 Open Scope string_scope.
 
@@ -83,3 +83,24 @@ Proof.
   - constructor. constructor; [assumption|]. constructor; [|constructor]. constructor. repeat constructor; assumption.
   - refine (proj1 (I _ _)). vm_compute. reflexivity.
 Qed.
+
+(* Proved with no premise left: on markers whose clauses are '==' / '!=' comparisons of a string variable (any variable that is
+   not a version variable and not 'extra') with a plain value (letters, digits, '_', '.', '-') — and the atomic
+   conjunctions / disjunctions the merge builds from them — intersection and union through the whole simplifier have the
+   truth table of and / or on every environment that defines the variables, for every fuel and guard state.  The class
+   [SR E] is a [clause_class] (Proofs/StringClass.v): the same-variable merge goes through the string-constraint algebra,
+   exact on this fragment (C16), and a single-clause result through SingleMarker.__init__ on the rebuilt text
+   (Proofs/LeafRebuild.v follows the two regexes and the constraint parser symbolically over an arbitrary plain value). *)
+Theorem C07_string_clauses_form_a_class : forall E, clause_class E (SR E).
+Proof. exact string_clause_class. Qed.
+Print Assumptions C07_string_clauses_form_a_class.
+Theorem C07_intersect_union_string_markers : forall E fuel st a b, G (SR E) a -> G (SR E) b ->
+  (forall r, m_intersect fuel st a b = Ok r -> beval E r = beval E a && beval E b /\ G (SR E) r) /\
+  (forall r, m_union fuel st a b = Ok r -> beval E r = beval E a || beval E b /\ G (SR E) r).
+Proof. exact string_intersect_union. Qed.
+Print Assumptions C07_intersect_union_string_markers.
+(* the clauses of that class are what the constructor builds from text *)
+Theorem C07_parsed_clause_in_class : forall E n o v, str_name n = true -> defined E n -> eqne_op o = true -> plain_value v = true ->
+  exists l, mk_leaf n (op_text o ++ string_of_list_ascii v)%string false = Ok l /\ SR E (MSingle l).
+Proof. exact clause_of_text_in_class. Qed.
+Print Assumptions C07_parsed_clause_in_class.
